@@ -283,6 +283,27 @@ def main(argv=None):
             cases.append(Case(w["line"], w.get("expect"), "known:" + k.get("status", "")))
     lines = [c.line for c in cases]
     impl = run_impl_par(drv, lines, getattr(mod, "ENV", None))
+    # a `hang` is a watchdog expiry: on a loaded machine a slow but terminating case can trip it.  Confirm before believing: the
+    # (first few) hanging forked cases are run again, with nothing else of this check running, under a watchdog three times
+    # as long; only a case that hangs again keeps the outcome.  (A genuinely looping library still hangs.)
+    hung = [i for i, (c, o) in enumerate(zip(cases, impl)) if o == "hang" and c.line.startswith("!")]
+    if hung:
+        env2 = dict(getattr(mod, "ENV", None) or {}); base = int(env2.get("OP2DRV_WATCHDOG", "30"))
+        env2["OP2DRV_WATCHDOG"] = str(3 * base)
+        def again(i):
+            line = cases[i].line
+            m = re.match(r"^!(\d+)!(.*)$", line)
+            if m: line = f"!{3 * int(m.group(1))}!{m.group(2)}"
+            o2, rc2, err2 = run_lines(drv, [line], env2, timeout=BATCH_TIMEOUT)
+            return o2[0] if len(o2) == 1 else "hang"
+        import concurrent.futures
+        pick = hung[:8]
+        with concurrent.futures.ThreadPoolExecutor(len(pick)) as ex: outs2 = list(ex.map(again, pick))
+        confirmed = 0
+        for i, o2 in zip(pick, outs2):
+            if o2 != "hang": impl[i] = o2
+            else: confirmed += 1
+        log(f"{len(hung)} hang outcome(s); re-ran {len(pick)} of them with a 3x watchdog and nothing else running: {confirmed} confirmed")
     if model:
         mlines = [re.sub(r"^!(\d+!)?", "", c.line) for c in cases]
         mo, merr2 = run_model_par(model, mlines)
